@@ -18,7 +18,7 @@ CHECK_DEADLOCK FALSE
 """
 TRACE_CFG = "SPECIFICATION TraceSpec\nPOSTCONDITION TraceAccepted\nCHECK_DEADLOCK FALSE\n"
 
-REAL_FIELDS = [("limit", 7), ("boost", True), ("ponly", True), ("pboost", True), ("fuzzy", True), ("thr", -30), ("nlp", True), ("cap", 1),
+REAL_FIELDS = [("limit", 7), ("boost", True), ("boostvar", 1), ("boostvar", 3), ("ponly", True), ("pboost", True), ("fuzzy", True), ("thr", -30), ("nlp", True), ("cap", 1),
                ("allplat", True), ("plats", ["windows"]), ("nocross", True)]
 QUERIES = {1: "frobnicate widget", 2: "FROBNICATE Widget", 3: "frobnicte"}
 BASE = dict(entry="universal", limit=5, nlp=False, fuzzy=False, thr=0, ponly=False, pboost=False, allplat=False, plats=[], nocross=False,
